@@ -77,7 +77,8 @@ need_mp = [
     "if(pitch==0)pitch=width*tjPixelSize[pixelFormat];",
     "if(pitch==0)pitch=dinfo->output_width*tjPixelSize[pixelFormat];",
     "croppedHeight=dinfo->output_height;",
-    "if(this->croppingRegion.y!=0||this->croppingRegion.h!=0)croppedHeight=this->croppingRegion.h;",
+    "if(this->croppingRegion.y!=0||this->croppingRegion.h!=0)",
+    "croppedHeight=this->croppingRegion.h;",
 ]
 for n in need_mp:
     if n not in mp:
@@ -113,6 +114,26 @@ b = fbody("jdapistd.c", "_jpeg_read_scanlines")
 if "row_ctr=0;" not in b or "(cinfo,scanlines,&row_ctr,max_lines);" not in b or "cinfo->output_scanline+=row_ctr;returnrow_ctr;" not in b:
     die("jdapistd.c: _jpeg_read_scanlines body changed")
 
+# the re-checks of the cropping region inside tj3Decompress8/12 (model/ExtentHist.v)
+chk_left = "if((int)crop_x!=this->croppingRegion.x)THROWI(" in mp
+chk_width = "if((int)crop_w!=this->croppingRegion.w)THROWI(" in mp
+chk_bottom = ("if(this->croppingRegion.y+this->croppingRegion.h>(int)dinfo->output_height)THROW(" in mp or
+              "if((unsignedlonglong)this->croppingRegion.y+this->croppingRegion.h>dinfo->output_height)THROW(" in mp)
+if "_jpeg_crop_scanline(dinfo,&crop_x,&crop_w);" not in mp:
+    die("turbojpeg-mp.c: call of jpeg_crop_scanline changed")
+ja = norm(open(repo + "/src/jdapistd.c").read())
+for n in ("if(*width==0||(unsignedlonglong)(*xoffset)+*width>cinfo->output_width)ERREXIT(cinfo,JERR_WIDTH_OVERFLOW);",
+          "*xoffset=(input_xoffset/align)*align;", "*width=*width+input_xoffset-*xoffset;cinfo->output_width=*width;",
+          "align=cinfo->_min_DCT_scaled_size*cinfo->max_h_samp_factor;"):
+    if n not in ja:
+        die("jdapistd.c: jpeg_crop_scanline statement the model transcribes is gone: " + n)
+# the C type of the product in every row_pointer[i] = &buf[i * pitch]: all of them must multiply in size_t
+rp = re.findall(r"row_pointer\[i\]=[^;]*;", mp + ntj)
+if len(rp) < 8 or any("*(size_t)pitch]" not in x for x in rp if "row_pointer[height-1]" not in x):
+    die("a row_pointer[i] statement does not multiply in size_t: " + "; ".join(x for x in rp if "*(size_t)pitch]" not in x)[:200])
+if re.search(r"&buf\[[^\]]*\*pitch\]", mp + ntj):
+    die("a row address is computed as &buf[row * pitch] without the size_t cast")
+
 h = open(repo + "/src/turbojpeg.h").read()
 
 
@@ -139,6 +160,11 @@ def zl(xs):
 print("(* GENERATED by tools/gen_Align.py from src/jmemmgr.c, src/turbojpeg.c, src/turbojpeg-mp.c, src/turbojpeg.h -- do not edit *)")
 print("From Coq Require Import List ZArith.\nImport ListNotations.\nLocal Open Scope Z_scope.\n")
 print("Definition align_size_simd : Z := %d." % align_simd)
+print("Definition dec_chk_left : bool := %s." % ("true" if chk_left else "false"))
+print("Definition dec_chk_width : bool := %s." % ("true" if chk_width else "false"))
+print("Definition dec_chk_bottom : bool := %s." % ("true" if chk_bottom else "false"))
+print("(* size_t on the LP64 target the harness is built for *)")
+print("Definition rowptr_mul_bits : Z := 64.")
 print("Definition tmp_rows_cover_pw : bool := %s." % ("true" if wide else "false"))
 print("Definition tj_mcu_width : list Z := %s." % zl(mw))
 print("Definition tj_mcu_height : list Z := %s." % zl(mh))
